@@ -19,13 +19,16 @@ let report kind clause fmt =
     Hashtbl.replace reported key (k + 1);
     if k < max_report then Printf.printf "%s %s %s\n" kind clause msg) fmt
 
+(* "?" = something that was never stored: a value no specification answer contains *)
+let foreign = n_of_int 987654321
+let value_of_s w = if w = "?" then foreign else n_of_string w
 let vlist_of_s s : BinNums.coq_N list =
-  if s = "-" || s = "" then [] else L.map n_of_string (split '.' s)
+  if s = "-" || s = "" then [] else L.map value_of_s (split '.' s)
 let ints (l : BinNums.coq_N list) = L.map int_of_n l
 let s_of_ints l = if l = [] then "-" else S.concat "." (L.map string_of_int l)
 let s_of_vlist l = s_of_ints (ints l)
 let sorted l = L.sort compare (ints l)
-let first_of_s s = if s = "-" then None else Some (n_of_string s)
+let first_of_s s = if s = "-" then None else Some (value_of_s s)
 let s_of_first = function None -> "-" | Some v -> string_of_n v
 let seven = n_of_int 7
 
@@ -54,11 +57,13 @@ let run_c04 path =
   let names = ref [||] and filters = ref [||] in
   let sets : (string, Trie.tree * TreeSpec.tmap) Hashtbl.t = Hashtbl.create 1024 in
   let seenq = Hashtbl.create 4096 in
+  let mrows : (int, string) Hashtbl.t = Hashtbl.create 1024 in
   let bit c = (c = '1') in
   L.iter (fun line -> match words line with
     | "names" :: l -> names := Array.of_list (L.map bytes_of_hex l)
     | "filters" :: l -> filters := Array.of_list (L.map bytes_of_hex l)
     | ["mrow"; fi; a; b] ->
+      Hashtbl.replace mrows (int_of_string fi) a;
       let f = !filters.(int_of_string fi) in
       let t = Trie.coq_Set_ Trie.coq_New f seven in
       let fl = MatchSpec.split_levels f in
@@ -79,6 +84,11 @@ let run_c04 path =
         let spec = MatchSpec.matches (MatchSpec.split_levels f) nl in
         let mm = (Trie.coq_Search t f <> []) and mf = (Trie.coq_SearchFirst t f <> None) in
         let pr = Printf.sprintf "filter=%s name=%s" (hex_of_bytes f) (hex_of_bytes name) in
+        (* the two directions, on the implementation alone: Match on {f} finds name iff Search on {name} finds it with f *)
+        (match Hashtbl.find_opt mrows fi with
+         | Some ma when ma.[int_of_string ni] <> a.[fi] ->
+           report "propfail" "directions" "%s Match=%c Search=%c" pr ma.[int_of_string ni] a.[fi]
+         | _ -> ());
         if a.[fi] = 'x' || bit a.[fi] <> spec then report "propfail" "search" "%s Search=%c spec=%b" pr a.[fi] spec
         else if b.[fi] = 'x' || bit b.[fi] <> spec then report "propfail" "first" "%s SearchFirst=%c spec=%b" pr b.[fi] spec
         else if mm <> spec || mf <> spec then report "diff" "search" "%s model Search=%b SearchFirst=%b impl=spec=%b" pr mm mf spec) !filters
@@ -187,13 +197,19 @@ let run_c05 path =
       Hashtbl.reset answers; Hashtbl.reset memo; stack := []
     | ["new"] -> stack := []
     | ["pop"; k] -> for _ = 1 to int_of_string k do stack := L.tl !stack done
-    | ["push"; o; id] ->
+    | ["push"; o; id] | ["seq"; o; id] ->
       incr n;
-      let (t, m, h) = top () in
-      let op = op_of_s o in
-      let t' = Trie.apply_trie t op and m' = TreeSpec.apply_spec m op in
-      let h' = o :: h in
-      stack := (t', m', h') :: !stack;
+      let is_seq = (S.length line > 3 && S.sub line 0 3 = "seq") in
+      let (t', m', h') =
+        if is_seq then
+          (* a whole history from the empty tree; the stack is left alone *)
+          L.fold_left (fun (t, m, h) o1 -> let op = op_of_s o1 in (Trie.apply_trie t op, TreeSpec.apply_spec m op, o1 :: h))
+            (Trie.coq_New, [], []) (split ',' o)
+        else begin
+          let (t, m, h) = top () in
+          let op = op_of_s o in
+          let st = (Trie.apply_trie t op, TreeSpec.apply_spec m op, o :: h) in
+          stack := st :: !stack; st end in
       let key = Marshal.to_string (t', m', id) [] in
       (match Hashtbl.find_opt memo key with
        | Some true -> ()
@@ -232,7 +248,7 @@ let run_c05conc path =
     | ["conc"; k; _] -> Hashtbl.replace gors k []
     | "gor" :: k :: g :: own :: steps ->
       let own = vlist_of_s own in
-      let t = ref Trie.coq_New in
+      let t = ref Trie.coq_New and m = ref [] in
       let ops = ref [] in
       L.iteri (fun i st -> match split ';' st with
         | [o; gt; gv; nm; mv; fl; sv] ->
@@ -240,12 +256,17 @@ let run_c05conc path =
           let op = op_of_s o in
           ops := op :: !ops;
           t := Trie.apply_trie !t op;
-          let mg = Trie.coq_Get !t (bytes_of_hex gt) in
-          let mm = sorted (inter own (Trie.coq_Match !t (bytes_of_hex nm))) in
-          let ms = sorted (inter own (Trie.coq_Search !t (bytes_of_hex fl))) in
-          if vlist_of_s gv <> mg then report "propfail" "atomic" "run=%s goroutine=%s step=%d after %s Get(%s)=%s sequential=%s" k g i o gt gv (s_of_vlist mg)
-          else if sorted (vlist_of_s mv) <> mm then report "propfail" "atomic" "run=%s goroutine=%s step=%d after %s Match(%s) own=%s sequential=%s" k g i o nm mv (s_of_ints mm)
-          else if sorted (vlist_of_s sv) <> ms then report "propfail" "atomic" "run=%s goroutine=%s step=%d after %s Search(%s) own=%s sequential=%s" k g i o fl sv (s_of_ints ms)
+          m := TreeSpec.apply_spec !m op;
+          (* judged by the specification map run on this goroutine's operations alone (C05_commute / C05_interleave);
+             order of a Get answer is compared with the trie model only as a correspondence *)
+          let sg = TreeSpec.s_get !m (MatchSpec.split_levels (bytes_of_hex gt)) in
+          let sm = sorted (inter own (TreeSpec.s_match !m (MatchSpec.split_levels (bytes_of_hex nm)))) in
+          let ss = sorted (inter own (TreeSpec.s_search !m (MatchSpec.split_levels (bytes_of_hex fl)))) in
+          if not (TreeSpec.permb (vlist_of_s gv) sg) then report "propfail" "atomic" "run=%s goroutine=%s step=%d after %s Get(%s)=%s sequential=%s" k g i o gt gv (s_of_vlist sg)
+          else if sorted (vlist_of_s mv) <> sm then report "propfail" "atomic" "run=%s goroutine=%s step=%d after %s Match(%s) own=%s sequential=%s" k g i o nm mv (s_of_ints sm)
+          else if sorted (vlist_of_s sv) <> ss then report "propfail" "atomic" "run=%s goroutine=%s step=%d after %s Search(%s) own=%s sequential=%s" k g i o fl sv (s_of_ints ss)
+          else if vlist_of_s gv <> Trie.coq_Get !t (bytes_of_hex gt) then
+            report "diff" "conc" "run=%s goroutine=%s step=%d Get(%s)=%s model order %s" k g i gt gv (s_of_vlist (Trie.coq_Get !t (bytes_of_hex gt)))
         | _ -> failwith ("bad step " ^ st)) steps;
       Hashtbl.replace gors k ((int_of_string g, L.rev !ops) :: (try Hashtbl.find gors k with Not_found -> []))
     | "final" :: k :: rest ->
